@@ -279,9 +279,16 @@ fn add_stats(a: &mut RunStats, b: &RunStats) {
 fn main() {
     let args = parse_args();
     elem::install_panic_hook();
-    assert!(std::mem::size_of::<elem::Tracked>() == if cfg!(feature = "big_elem") { 32 } else { 16 });
+    assert!(std::mem::size_of::<elem::Tracked>() == if cfg!(feature = "big_elem") { 128 } else { 16 });
     match args.cmd.as_str() {
-        "batch" => cmd_batch(&args),
+        "batch" => {
+            // the panic hook is silent (panics are simulation events); a panic of the main thread
+            // itself is a harness error and must say so
+            if std::panic::catch_unwind(std::panic::AssertUnwindSafe(|| cmd_batch(&args))).is_err() {
+                println!("HARNESS main thread panicked: {}", elem::LAST_PANIC.with(|p| p.borrow().clone()));
+                std::process::exit(2);
+            }
+        }
         "replay" => cmd_replay(&args),
         "gen" => {
             let s = generate(&args.prop, args.seed, args.run).unwrap_or_else(|| usage());
